@@ -374,6 +374,9 @@ Section Cpc.
   Notation step_B := (step_B nstate native_step q_rewards q_balance q_delegated_bonded q_bonded chain_id typed_hash recover).
   Notation run_A := (run_A nstate native_step q_rewards q_balance q_delegated_bonded q_bonded chain_id typed_hash recover).
   Notation run_B := (run_B nstate native_step q_rewards q_balance q_delegated_bonded q_bonded chain_id typed_hash recover).
+  Notation logs_A := (logs_A nstate native_step q_rewards q_balance q_delegated_bonded q_bonded chain_id typed_hash recover).
+  Notation logs_B := (logs_B nstate native_step q_rewards q_balance q_delegated_bonded q_bonded chain_id typed_hash recover).
+  Notation trace := (trace nstate).
   Notation issued_A := (issued_A nstate native_step q_rewards q_balance q_delegated_bonded q_bonded chain_id typed_hash recover).
 
   Lemma issued_A_own : forall ops s, Forall (fun p => msg_delegator (snd p) = fst p) (issued_A s ops).
@@ -429,6 +432,27 @@ Section Cpc.
       destruct (native_prog s (precompile_caller sender path) c) as [[[s' evs] ms]|] eqn:Hp; [|reflexivity].
       unfold of_prog, emit. destruct (existsb counted evs) eqn:He; [reflexivity|].
       symmetry. eapply native_prog_silent; eauto.
+    Qed.
+
+    Lemma silent_events_no_logs : forall d evs, existsb counted evs = false -> flat_map (logs_of_event d) evs = [].
+    Proof.
+      intros d. induction evs as [|e r IH]; intros H; [reflexivity|]. cbn [existsb] in H.
+      apply orb_false_iff in H as [He Hr]. cbn [flat_map]. rewrite (IH Hr). destruct e; try discriminate. reflexivity.
+    Qed.
+
+    Lemma logs_A_eq_logs_B : forall s o, logs_A s o = logs_B s o.
+    Proof.
+      intros s o. destruct o as [sender path c|m|f]; cbn [StakingCpc.logs_A StakingCpc.logs_B]; try reflexivity.
+      rewrite cpc_step_is_native_prog.
+      destruct (native_prog s (precompile_caller sender path) c) as [[[s' evs] ms]|]; [|reflexivity].
+      unfold of_prog, emit. destruct (existsb counted evs) eqn:He; [reflexivity|].
+      symmetry. now apply silent_events_no_logs.
+    Qed.
+
+    Theorem twin_logs_agree : forall ops s, trace logs_A step_A s ops = trace logs_B step_B s ops.
+    Proof.
+      induction ops as [|o r IH]; intros s; cbn [StakingCpc.trace]; [reflexivity|].
+      now rewrite logs_A_eq_logs_B, step_A_eq_step_B, IH.
     Qed.
 
     Theorem twin_histories_agree : forall ops s, run_A s ops = run_B s ops.
